@@ -296,7 +296,7 @@ def MemOp.releases (n fid : Nat) : MemOp → Prop
   | .takeFrag f => f = fid
   | _ => False
 
-instance (n fid : Nat) (op : MemOp) : Decidable (op.releases n fid) := by
+instance MemOp.instDecidableReleases (n fid : Nat) (op : MemOp) : Decidable (op.releases n fid) := by
   cases op <;> unfold MemOp.releases <;> infer_instance
 
 /-! ### Fixtures for the `example`s of Props/C17.lean: a 2-slot memory, so that ids 1 and 3 alias
